@@ -30,7 +30,7 @@ FAIL = ("OSError", "PermissionError", "fail")
 
 
 class Script:
-    def __init__(self, trace, kill_after=None, kill_before=None, full=False):
+    def __init__(self, trace, kill_after=None, kill_before=None, full=False, by_name=None):
         self.trace = [t.split(":", 1) if isinstance(t, str) else list(t) for t in trace]
         self.pos = 0
         self.kill_after = kill_after      # number of completed externals after which the process is killed
@@ -43,6 +43,11 @@ class Script:
         self.files = []   # open proxies: a kill abandons them without flushing
         self.failed = []  # names of the externals that were made to fail
         self.unintercepted = []  # (full mode, audit hook) file-system mutations outside every intercepted external
+        # position-independent schedule: {"shutil.rmtree#2": "fail", "Path.replace#1": "kill"} = the 2nd rmtree call
+        # fails, the process is killed just before the 1st replace call
+        self.by_name = dict(by_name or {})
+        self.counts = {}
+        self.hit = []     # scheduled entries that were reached
 
     def _die(self):
         self.killed = True
@@ -55,6 +60,19 @@ class Script:
             raise Kill()   # the process is dead: code that Python would still run (finally blocks) has no effect
         if self.kill_before is not None and self.pos == self.kill_before:
             self._die()
+        if self.by_name:
+            self.counts[name] = self.counts.get(name, 0) + 1
+            lab = f"{name}#{self.counts[name]}"
+            act = self.by_name.get(lab)
+            if act is not None:
+                self.hit.append(lab)
+                if act == "kill":
+                    self.log.append(f"{name}:killed-before")
+                    self._die()
+                self.pos += 1
+                self.log.append(f"{name}:fail")
+                self.failed.append(name)
+                return "fail"
         if self.pos >= len(self.trace):
             self.log.append(f"{name}:ok(unscripted)")
             self.pos += 1
